@@ -478,7 +478,7 @@ func TestVerif_C20(t *testing.T) {
 		}
 	}, bprop)
 	verifkit.Enumerate(k, t, "serve-behaviour-pairs-x-signal", true, c20Matrix, sprop)
-	verifkit.Rapid(k, t, "serve-scripted-tasks", k.N(3000, 150000), c20GenServe, sprop)
+	verifkit.Rapid(k, t, "serve-scripted-tasks", k.N(3000, 400000), c20GenServe, sprop)
 }
 
 var _ = errors.New
